@@ -211,7 +211,7 @@ func RunSliceExprCheck(ctx *Task, ctxCheck *ContextCheck, expr *ast.SliceExpr) *
 			return err
 		}
 	}
-	if expr.End != nil {
+	if expr.Step != nil {
 		if err := RunStmtCheck(ctx, ctxCheck, expr.Step); err != nil {
 			return err
 		}
